@@ -75,6 +75,7 @@ func runTrunc(t *simrt.Tape, keep bool) simrt.Outcome {
 	sample["exhaustive_over_cuts"] = exhaustive
 	sample["write_calls"] = len(file.Writes)
 	chunked := t.Choose(len(cuts)) // one cut point is additionally read through a chunking reader
+	autoPhase := t.Choose(4)       // every fourth cut point is additionally read through format detection
 	for ci, cut := range cuts {
 		want := 0
 		for _, e := range ends {
@@ -104,6 +105,37 @@ func runTrunc(t *simrt.Tape, keep bool) simrt.Outcome {
 		}
 		if err == nil {
 			r.fail("C09", "C09.no-end", map[string]string{"fmt": f}, "%s stream cut at byte %d: decoder kept returning records", f, cut)
+		}
+		if r.viol == nil && (ci == chunked || ci%4 == autoPhase) {
+			// the same prefix through format detection, as the commands read it, from a reader that reports the end
+			// together with the last bytes or in tape-chosen chunks. Detection needs one complete record.
+			var ard *simrt.SimReader
+			if ci == chunked {
+				ard = simrt.NewSimReader(t, data[:cut])
+			} else {
+				ard = simrt.DataEOFReader(data[:cut])
+			}
+			var adec vegeta.Decoder
+			r.guard("C09", "DecoderFor", func() { adec = vegeta.DecoderFor(ard) })
+			if adec == nil {
+				if want > 0 && r.viol == nil {
+					r.fail("C09", "C09.detect-prefix", map[string]string{"fmt": f}, "%s stream of %d records cut at byte %d (%d records complete): format detection finds no decoder", f, n, cut, want)
+				}
+			} else if r.viol == nil {
+				agot, _ := decodeAll(r, "C09", "auto-detected decoder on truncated stream", adec, n+2)
+				if r.viol == nil && len(agot) != want {
+					r.fail("C09", "C09.detect-prefix-count", map[string]string{"fmt": f}, "%s stream of %d records (%d bytes) cut at byte %d, read through format detection: %d records returned, %d were completely written", f, n, len(data), cut, len(agot), want)
+				}
+				for i := range agot {
+					if r.viol != nil {
+						break
+					}
+					if d := simcommon.DiffResults(&rs[i], &agot[i]); d != "" {
+						r.fail("C09", "C09.detect-prefix-content", map[string]string{"fmt": f}, "%s stream cut at byte %d, read through format detection: record %d differs from what was written: %s", f, cut, i, d)
+					}
+				}
+			}
+			r.stats["fault.cut-read-through-detection"]++
 		}
 		if f == "csv" && err != io.EOF {
 			r.fail("C09", "C09.csv-boundary", map[string]string{"fmt": f}, "csv stream cut at a record boundary (byte %d) ended with %v", cut, err)
@@ -163,6 +195,10 @@ func runMulti(t *simrt.Tape, keep bool) simrt.Outcome {
 	fmts := make([]string, k)
 	owners := make([][]int, k)
 	readers := make([]*simrt.SimReader, k)
+	auto := t.Prob(1, 2)
+	if auto {
+		r.stats["probe.auto-detected-inputs"]++
+	}
 	for p := 0; p < k; p++ {
 		fmts[p] = formats[t.Choose(3)]
 		var mine []vegeta.Result
@@ -185,6 +221,22 @@ func runMulti(t *simrt.Tape, keep bool) simrt.Outcome {
 			failing = -1
 		}
 		decs[p] = decoderFor(fmts[p], readers[p])
+		if auto && len(mine) > 0 {
+			// as the commands do: one auto-detected decoder per input (an input whose detection fails, e.g. on an
+			// injected read error inside its first record, is outside the statement: fall back to the named decoder)
+			readers[p] = simrt.NewSimReader(t, file.Data)
+			readers[p].ErrAt = -1
+			if p == failing {
+				failing = -1
+			}
+			var d vegeta.Decoder
+			r.guard("C13", "DecoderFor", func() { d = vegeta.DecoderFor(readers[p]) })
+			if d == nil {
+				r.fail("C13", "C13.unknown", nil, "DecoderFor returned nil for input %d, a valid %s stream of %d records", p, fmts[p], len(mine))
+				return r.outcome(nil, true)
+			}
+			decs[p] = d
+		}
 	}
 	r.log.Addf("inputs=%d total=%d fmts=%v failing=%d", k, total, fmts, failing)
 	var dec vegeta.Decoder
